@@ -384,7 +384,11 @@ func structural(F *Facts, nodeP, pegP, srvP, cmdP map[string]*ast.File) {
 							F.SharedState = append(F.SharedState, site(fn, fd.Name.Name, x, pkg+":call:"+c))
 						}
 					case *ast.GoStmt:
-						F.SharedState = append(F.SharedState, site(fn, fd.Name.Name, x, pkg+":go:"+src(x.Call.Fun)))
+						what := src(x.Call.Fun)
+						if i := strings.Index(what, "\n"); i >= 0 {
+							what = what[:i]
+						}
+						F.GoStmts = append(F.GoStmts, site(fn, fd.Name.Name, x, pkg+":go:"+what))
 					}
 					return true
 				})
@@ -392,7 +396,12 @@ func structural(F *Facts, nodeP, pegP, srvP, cmdP map[string]*ast.File) {
 		}
 	}
 
-	for _, l := range []*[]Site{&F.SQLSites, &F.PoolWrites, &F.PoolReads, &F.Discarded, &F.LogOnly, &F.BlankErr, &F.MapRanges, &F.Sorts, &F.SharedState, &F.TimeNow} {
+	for _, st := range F.SharedState {
+		if strings.HasPrefix(st.What, "srv:") {
+			F.ApiShared = append(F.ApiShared, st)
+		}
+	}
+	for _, l := range []*[]Site{&F.GoStmts, &F.ApiShared, &F.SQLSites, &F.PoolWrites, &F.PoolReads, &F.Discarded, &F.LogOnly, &F.BlankErr, &F.MapRanges, &F.Sorts, &F.SharedState, &F.TimeNow} {
 		s := *l
 		sort.Slice(s, func(i, j int) bool {
 			if s[i].File != s[j].File {
